@@ -107,7 +107,8 @@ def long_cases(rng, tier):
                 ctxs = [LONG_CONTEXTS[0], LONG_CONTEXTS[2] if name.startswith("bol-") else LONG_CONTEXTS[1]]
             for before, after in (ctxs if embed and L < 200000 else ctxs[:1]):
                 segs = [[before, len(before)], [lead, len(lead)], [pre, len(pre)], [unit, body], [suf, len(suf)], [after, len(after)]]
-                cases.append(("%s/%d/%s" % (name, L, "alone" if not before else "embedded"), [s for s in segs if s[1] > 0]))
+                kind = "alone" if not before else ("emb-mid" if before == LONG_CONTEXTS[1][0] else "emb-line")
+                cases.append(("%s/%d/%s" % (name, L, kind), [s for s in segs if s[1] > 0]))
     return cases
 
 
@@ -181,6 +182,7 @@ def _big_stack():
     import resource
     try:
         resource.setrlimit(resource.RLIMIT_STACK, (resource.RLIM_INFINITY, resource.RLIM_INFINITY))
+        resource.setrlimit(resource.RLIMIT_AS, (6 * 2 ** 30, 6 * 2 ** 30))      # a runaway model must fail, not take the machine down
     except (ValueError, OSError):
         pass
 
@@ -317,8 +319,10 @@ def check(run):
     # long-lexeme family (harness builds the texts from segments and writes the model's input itself)
     lcases = long_cases(run.rng, run.tier)
     nshard_long = 12 if run.tier == "quick" else 32
-    def model_ok(c):        # the extracted scanner (unary offsets, lists) is only practical up to ~2*10^5 code points per text
-        return c[0].split("/")[0] not in LONG_MONITOR_ONLY and int(c[0].split("/")[1]) <= LONG_MODEL_MAX
+    def model_ok(c):        # the extracted scanner (unary offsets, lists) is only practical up to ~2*10^5 code points per text,
+        fam, ln, ctx = c[0].split("/")      # and quadratic (time AND memory) where a text is many small lexemes: a line-start
+        return (fam not in LONG_MONITOR_ONLY and int(ln) <= LONG_MODEL_MAX      # lexeme put in the middle of a line falls apart
+                and not (fam.startswith("bol-") and ctx == "emb-mid"))
     tied = [c for c in lcases if model_ok(c)]
     untied = [c for c in lcases if not model_ok(c)]
     for k in range(nshard_long):
